@@ -1,12 +1,458 @@
-/-! Executable model for property C05 (core-only).  Not built yet: the driver answers
-    `unimplemented` so that a check of this property cannot pass by accident. -/
+import FpgoVerif.Model.C05Impl
+/-! Protocol, spec-level oracle and `handle`/`judge` for property C05 (core-only).
+
+    Case line:   `<kind> <operand>* : <op> ; <op> ; …`   (written `L [0.1] nil: union ; inter`)
+      kind `L`  operands are element lists      `nil` | `[]` | `[0.1.2]`
+      kind `M`  operands are key→value maps     `nil` | `nilmap` | `{}` | `{0:10,1:11}`
+      kind `S`  operands are key→stream maps    `nil` | `{}` | `{0:[0.1],1:[]}`
+    `nil` is a nil slice (kind L, function operands), a nil pointer / nil interface (method
+    arguments); a receiver given as `nil` is a non-nil pointer to a nil slice / nil map.
+    Observation: one item per op joined by ` | `: `g=<generic result> i=<interface{} twin result>`
+    (`g=<…>` alone for functions that have no twin).  Results that come out of a Go map are sorted.
+-/
 namespace FpgoVerif.C05
 
-/-- one protocol case line in, one canonical observation line out -/
-def handle (_line : String) : String := "unimplemented"
+/-! ### printing -/
 
-/-- spec-level oracle: given the case line and the observation printed by the real code, decide
-    whether the *property* is violated (`violation <why>`) or not (`allowed <why>`). -/
-def judge (_line _impl : String) : String := "violation model-and-implementation-disagree"
+def showList (l : List Nat) : String := "[" ++ ".".intercalate (l.map toString) ++ "]"
+def sortNat (l : List Nat) : List Nat := l.mergeSort (· ≤ ·)
+def showSorted (l : List Nat) : String := showList (sortNat l)
+def sortKeys {ν : Type} (m : GoMap Nat ν) : GoMap Nat ν := m.mergeSort (fun p q => p.1 ≤ q.1)
+def showMap (m : GoMap Nat Nat) : String :=
+  "{" ++ ",".intercalate ((sortKeys m).map (fun p => s!"{p.1}:{p.2}")) ++ "}"
+def showSS (m : GoMap Nat (List Nat)) : String :=
+  "{" ++ ",".intercalate ((sortKeys m).map (fun p => s!"{p.1}:{showList p.2}")) ++ "}"
+def showBool (b : Bool) : String := if b then "true" else "false"
+def showRes {β : Type} (f : β → String) : Res β → String
+  | .ok v => f v
+  | .panic => "panic"
+
+/-! ### parsing (total: anything malformed is `none`) -/
+
+def inner (s : String) : String := String.ofList (s.toList.drop 1).dropLast
+
+def allSome {β : Type} : List (Option β) → Option (List β)
+  | [] => some []
+  | none :: _ => none
+  | some x :: t => (allSome t).map (x :: ·)
+
+/-- `[]`, `[0.1.2]` -/
+def parseList (s : String) : Option (List Nat) :=
+  if s.startsWith "[" && s.endsWith "]" then
+    let body := inner s
+    if body = "" then some [] else allSome ((body.splitOn ".").map String.toNat?)
+  else none
+
+/-- operand of kind L: `none` = nil -/
+def parseListOpd (s : String) : Option (Option (List Nat)) :=
+  if s = "nil" then some none else (parseList s).map some
+
+def parseKV (s : String) : Option (Nat × Nat) :=
+  match s.splitOn ":" with
+  | [k, v] => match k.toNat?, v.toNat? with
+    | some k, some v => some (k, v)
+    | _, _ => none
+  | _ => none
+
+def parseMap (s : String) : Option (GoMap Nat Nat) :=
+  if s.startsWith "{" && s.endsWith "}" then
+    let body := inner s
+    if body = "" then some [] else allSome ((body.splitOn ",").map parseKV)
+  else none
+
+/-- operand of kind M: `none` = nil pointer/interface, `nilmap` = pointer to a nil map -/
+def parseMapOpd (s : String) : Option (Option (GoMap Nat Nat)) :=
+  if s = "nil" then some none else if s = "nilmap" then some (some []) else (parseMap s).map some
+
+def parseKS (s : String) : Option (Nat × List Nat) :=
+  match s.splitOn ":" with
+  | [k, v] => match k.toNat?, parseList v with
+    | some k, some v => some (k, v)
+    | _, _ => none
+  | _ => none
+
+def parseSS (s : String) : Option (GoMap Nat (List Nat)) :=
+  if s.startsWith "{" && s.endsWith "}" then
+    let body := inner s
+    if body = "" then some [] else allSome ((body.splitOn ",").map parseKS)
+  else none
+
+def parseSSOpd (s : String) : Option (Option (GoMap Nat (List Nat))) :=
+  if s = "nil" then some none else (parseSS s).map some
+
+def parseBool (s : String) : Option Bool :=
+  if s = "true" then some true else if s = "false" then some false else none
+
+structure Case where
+  kind : String
+  opds : List String
+  ops  : List String
+
+def parseCase (line : String) : Case :=
+  match line.splitOn ": " with
+  | head :: rest =>
+    let hs := (head.splitOn " ").filter (· ≠ "")
+    let body := ": ".intercalate rest
+    let ops := ((body.splitOn ";").map (fun t => t.trimAscii.toString)).filter (· ≠ "")
+    { kind := hs.headD "", opds := hs.drop 1, ops := ops }
+  | [] => { kind := "", opds := [], ops := [] }
+
+/-- `name:arg` -/
+def opArg (op : String) : String × String :=
+  match op.splitOn ":" with
+  | [n] => (n, "")
+  | n :: rest => (n, ":".intercalate rest)
+  | [] => ("", "")
+
+/-! ### running one op on the implementation models: `(generic, twin)`; `none` twin = no twin -/
+
+def both (s : String) : String × Option String := (s, some s)
+def only (s : String) : String × Option String := (s, none)
+def bad : String × Option String := ("bad-op", none)
+
+def lst (o : Option (List Nat)) : List Nat := o.getD []
+
+def runL (opds : List (Option (List Nat))) (op : String) : String × Option String :=
+  let (name, arg) := opArg op
+  let ls := opds.map lst
+  match name, opds with
+  | "union", _ => only (showSorted (union ls))
+  | "inter", _ => both (showRes showList (intersection (if opds.isEmpty then none else some ls)))
+  | "diff", _ => only (showRes showList (difference (if opds.isEmpty then none else some ls)))
+  | "inter0", _ => both (showRes showList (intersection (α := Nat) (some [])))
+  | "diff0", _ => only (showRes showList (difference (α := Nat) (some [])))
+  | "distinct", a :: _ => both (showList (distinct (lst a)))
+  | "s.distinct", a :: _ => both (showList (Stream.distinct (lst a)))
+  | "s.clone", a :: _ => both (showList (Stream.clone (lst a)))
+  | "s.reverse", a :: _ => both (showList (Stream.reverse (lst a)))
+  | "has", a :: _ => match arg.toNat? with
+    | some x => both (showBool (existsIn x (lst a)))
+    | none => bad
+  | "s.has", a :: _ => match arg.toNat? with
+    | some x => both (showBool (Stream.contains (lst a) x))
+    | none => bad
+  | "s.remove", a :: _ => match arg.toInt? with
+    | some k => (showList (G.streamRemove (lst a) k), some (showList (I.streamRemove (lst a) k)))
+    | none => bad
+  | "minus", a :: b :: _ => both (showList (minus (lst a) (lst b)))
+  | "subset", a :: b :: _ => both (showBool (isSubset (lst a) (lst b)))
+  | "superset", a :: b :: _ => both (showBool (isSuperset (lst a) (lst b)))
+  | "s.inter", a :: b :: _ => both (showList (Stream.intersection (lst a) b))
+  | "s.minus", a :: b :: _ => both (showList (Stream.minus (lst a) b))
+  | "s.subset", a :: b :: _ => both (showBool (Stream.isSubset (lst a) b))
+  | "s.superset", a :: b :: _ => both (showBool (Stream.isSuperset (lst a) b))
+  | "s.rmitem", a :: b :: _ => both (showList (Stream.removeItem (lst a) (lst b)))
+  | "s.append", a :: b :: _ => both (showList (Stream.concat (lst a) [lst b]))
+  | "s.concat", a :: rest => both (showList (Stream.concat (lst a) (rest.map lst)))
+  | "s.extend", a :: rest => both (showList (Stream.extend (lst a) rest))
+  | _, _ => bad
+
+def mp (o : Option (GoMap Nat Nat)) : GoMap Nat Nat := o.getD []
+
+def runM (opds : List (Option (GoMap Nat Nat))) (op : String) : String × Option String :=
+  let (name, arg) := opArg op
+  match name, opds with
+  | "m.union", a :: b :: _ => both (showMap (MapSet.union (mp a) b))
+  | "m.inter", a :: b :: _ => both (showMap (MapSet.intersection (mp a) b))
+  | "m.minus", a :: b :: _ => both (showMap (MapSet.minus (mp a) b))
+  | "m.subset", a :: b :: _ => both (showBool (MapSet.isSubsetByKey (mp a) b))
+  | "m.superset", a :: b :: _ => both (showBool (MapSet.isSupersetByKey (mp a) b))
+  | "m.add", a :: _ => match parseList arg with
+    | some l => both (showMap (MapSet.add 0 (mp a) l))
+    | none => bad
+  | "m.rmkeys", a :: _ => match parseList arg with
+    | some l => both (showMap (MapSet.removeKeys (mp a) l))
+    | none => bad
+  | "m.has", a :: _ => match arg.toNat? with
+    | some k => both (showBool (MapSet.containsKey (mp a) k))
+    | none => bad
+  | "m.keys", a :: _ => both (showSorted (MapSet.keys (mp a)))
+  | "m.size", a :: _ => both (toString (MapSet.size (mp a)))
+  | "m.clone", a :: _ => both (showMap (MapSet.clone (mp a)))
+  | "m.fromarray", _ => match parseList arg with
+    | some l => both (showMap (sliceToMap 0 l))
+    | none => bad
+  | "merge", a :: b :: _ => both (showMap (merge (mp a) (mp b)))
+  | "intermap", _ => both (showMap (intersectionMapByKey (opds.map mp)))
+  | "minusmap", a :: b :: _ => only (showMap (minusMapByKey (mp a) (mp b)))
+  | "subsetmap", a :: b :: _ => both (showBool (isSubsetMapByKey (mp a) (mp b)))
+  | "supersetmap", a :: b :: _ => both (showBool (isSupersetMapByKey (mp a) (mp b)))
+  | _, _ => bad
+
+def ssv (o : Option (GoMap Nat (List Nat))) : GoMap Nat (List Nat) := o.getD []
+
+def runS (opds : List (Option (GoMap Nat (List Nat)))) (op : String) : String × Option String :=
+  match op, opds with
+  | "ss.union", a :: b :: _ => (showSS (G.ssUnion (ssv a) b), some (showSS (I.ssUnion (ssv a) b)))
+  | "ss.inter", a :: b :: _ => (showSS (G.ssIntersection (ssv a) b), some (showSS (I.ssIntersection (ssv a) b)))
+  | "ss.minusstreams", a :: b :: _ =>
+    (showSS (G.ssMinusStreams (ssv a) b), some (showSS (I.ssMinusStreams (ssv a) b)))
+  | "ss.minus", a :: b :: _ => (showSS (G.ssMinus (ssv a) b), some (showSS (I.ssMinus (ssv a) b)))
+  | "ss.subset", a :: b :: _ =>
+    (showBool (G.ssIsSubsetByKey (ssv a) b), some (showBool (I.ssIsSubsetByKey (ssv a) b)))
+  | "ss.superset", a :: b :: _ =>
+    (showBool (G.ssIsSupersetByKey (ssv a) b), some (showBool (I.ssIsSupersetByKey (ssv a) b)))
+  | "ss.clone", a :: _ => (showSS (G.ssClone (ssv a)), some (showSS (I.ssClone (ssv a))))
+  | "ss.frommap", a :: _ => (showSS (G.streamSetFromMap (ssv a)), some (showSS (I.streamSetFromMap (ssv a))))
+  | _, _ => bad
+
+def showObs (r : String × Option String) : String :=
+  match r.2 with
+  | some i => s!"g={r.1} i={i}"
+  | none => s!"g={r.1}"
+
+def runOp (c : Case) (op : String) : String × Option String :=
+  match c.kind with
+  | "L" => match allSome (c.opds.map parseListOpd) with
+    | some o => runL o op
+    | none => bad
+  | "M" => match allSome (c.opds.map parseMapOpd) with
+    | some o => runM o op
+    | none => bad
+  | "S" => match allSome (c.opds.map parseSSOpd) with
+    | some o => runS o op
+    | none => bad
+  | _ => bad
+
+/-- protocol entry point -/
+def handle (line : String) : String :=
+  let c := parseCase line
+  " | ".intercalate (c.ops.map (fun op => showObs (runOp c op)))
+
+/-! ### Spec: what the property demands (membership laws, no duplicates, order of the first operand)
+    — stated without reference to the implementation models; evaluated by `judge` on what the real
+    code printed. -/
+
+namespace Spec
+
+/-- first occurrences, in order -/
+def dedup {α : Type} [DecidableEq α] : List α → List α
+  | [] => []
+  | x :: xs => x :: (dedup xs).filter (fun y => decide (y ≠ x))
+
+def nodup : List Nat → Bool
+  | [] => true
+  | x :: xs => !xs.contains x && nodup xs
+
+/-- `r` has exactly the members selected by `p` among the candidates `univ` (and nothing else) -/
+def members (univ r : List Nat) (p : Nat → Bool) : Bool := (univ ++ r).all (fun x => r.contains x == p x)
+
+/-- `r` lists its members in the order of their first occurrence in `a` -/
+def ordered (a r : List Nat) : Bool := r == (dedup a).filter (r.contains ·)
+
+def unionOK (as : List (List Nat)) (r : List Nat) : Bool :=
+  members as.flatten r (fun x => as.any (·.contains x)) && nodup r
+
+def interOK (as : List (List Nat)) (r : List Nat) : Bool :=
+  members as.flatten r (fun x => as.all (·.contains x)) && nodup r && ordered (as.headD []) r
+
+def diffOK (as : List (List Nat)) (r : List Nat) : Bool :=
+  members as.flatten r (fun x => (as.headD []).contains x && (as.drop 1).all (fun b => !b.contains x))
+    && nodup r && ordered (as.headD []) r
+
+def distinctOK (a r : List Nat) : Bool := members a r (a.contains ·) && nodup r && ordered a r
+
+def minusOK (a b r : List Nat) : Bool := members (a ++ b) r (fun x => a.contains x && !b.contains x)
+
+def subsetOK (a b : List Nat) (r : Bool) : Bool := r == a.all (b.contains ·)
+
+/-- per-key comparison of a result stream with a membership predicate -/
+def streamOK (univ : List Nat) (r : Option (List Nat)) (p : Nat → Bool) : Bool :=
+  match r with
+  | some l => members univ l p
+  | none => false
+
+end Spec
+
+def nonEmptyAll {β : Type} (l : List (List β)) : Bool := l.all (fun a => a.length > 0)
+
+/-- `none` = the laws hold (or are not demanded); `some why` otherwise -/
+def req (ok : Bool) (why : String) : Option String := if ok then none else some why
+
+def specL (opds : List (Option (List Nat))) (op g : String) : Option String :=
+  let (name, _) := opArg op
+  let ls := opds.map lst
+  let inScope (n : Nat) : Bool := ls.length ≥ n && nonEmptyAll ls
+  match name, ls with
+  | "union", _ => if inScope 1 then
+      match parseList g with
+      | some r => req (Spec.unionOK ls r) "Union: membership / no-duplicates law"
+      | none => some "Union: no result"
+    else none
+  | "inter", _ => if inScope 1 then
+      match parseList g with
+      | some r => req (Spec.interOK ls r) "Intersection: membership / no-duplicates / first-operand-order law"
+      | none => some "Intersection: no result"
+    else none
+  | "diff", _ => if inScope 1 then
+      match parseList g with
+      | some r => req (Spec.diffOK ls r) "Difference: membership / no-duplicates / first-operand-order law"
+      | none => some "Difference: no result"
+    else none
+  | "distinct", a :: _ | "s.distinct", a :: _ => if inScope 1 then
+      match parseList g with
+      | some r => req (Spec.distinctOK a r) "Distinct: membership / no-duplicates / order law"
+      | none => some "Distinct: no result"
+    else none
+  | "minus", a :: b :: _ | "s.minus", a :: b :: _ | "s.rmitem", a :: b :: _ => if inScope 2 then
+      match parseList g with
+      | some r => req (Spec.minusOK a b r) "Minus: membership law"
+      | none => some "Minus: no result"
+    else none
+  | "s.inter", a :: b :: _ => if inScope 2 then
+      match parseList g with
+      | some r => req (Spec.interOK [a, b] r) "Stream.Intersection: membership / no-duplicates / order law"
+      | none => some "Stream.Intersection: no result"
+    else none
+  | "subset", a :: b :: _ | "s.subset", a :: b :: _ => if inScope 2 then
+      match parseBool g with
+      | some r => req (Spec.subsetOK a b r) "IsSubset law"
+      | none => some "IsSubset: no result"
+    else none
+  | "superset", a :: b :: _ | "s.superset", a :: b :: _ => if inScope 2 then
+      match parseBool g with
+      | some r => req (Spec.subsetOK b a r) "IsSuperset law"
+      | none => some "IsSuperset: no result"
+    else none
+  | _, _ => none
+
+def keysOK (univ : List Nat) (r : List Nat) (p : Nat → Bool) : Bool := Spec.members univ r p && Spec.nodup r
+
+def specM (opds : List (Option (GoMap Nat Nat))) (op g : String) : Option String :=
+  let (name, _) := opArg op
+  let ms := opds.map mp
+  let ks := ms.map mkeys
+  let inScope (n : Nat) : Bool := ks.length ≥ n && nonEmptyAll ks
+  let keyLaw (p : Nat → Bool) (what : String) : Option String :=
+    match parseMap g with
+    | some r => req (keysOK ks.flatten (mkeys r) p) what
+    | none => some (what ++ ": no result")
+  match name, ks with
+  | "m.union", a :: b :: _ | "merge", a :: b :: _ =>
+    if inScope 2 then keyLaw (fun k => a.contains k || b.contains k) "Union by key" else none
+  | "m.inter", a :: b :: _ =>
+    if inScope 2 then keyLaw (fun k => a.contains k && b.contains k) "Intersection by key" else none
+  | "intermap", _ =>
+    if inScope 1 then keyLaw (fun k => ks.all (·.contains k)) "IntersectionMapByKey" else none
+  | "m.minus", a :: b :: _ | "minusmap", a :: b :: _ =>
+    if inScope 2 then keyLaw (fun k => a.contains k && !b.contains k) "Minus by key" else none
+  | "m.subset", a :: b :: _ | "subsetmap", a :: b :: _ => if inScope 2 then
+      match parseBool g with
+      | some r => req (Spec.subsetOK a b r) "IsSubsetByKey law"
+      | none => some "IsSubsetByKey: no result"
+    else none
+  | "m.superset", a :: b :: _ | "supersetmap", a :: b :: _ => if inScope 2 then
+      match parseBool g with
+      | some r => req (Spec.subsetOK b a r) "IsSupersetByKey law"
+      | none => some "IsSupersetByKey: no result"
+    else none
+  | _, _ => none
+
+/-- every key map non-empty and every per-key stream non-empty -/
+def ssInScope (ms : List (GoMap Nat (List Nat))) : Bool :=
+  ms.all (fun m => m.length > 0 && m.all (fun p => p.2.length > 0))
+
+def specS (opds : List (Option (GoMap Nat (List Nat)))) (op g : String) : Option String :=
+  let ms := opds.map ssv
+  let strm (m : GoMap Nat (List Nat)) (k : Nat) : List Nat := (mget m k).getD []
+  match op, ms with
+  | "ss.union", a :: b :: _ => if ssInScope [a, b] then
+      match parseSS g with
+      | some r =>
+        req (keysOK (mkeys a ++ mkeys b) (mkeys r) (fun k => mhas a k || mhas b k)
+             && (mkeys a ++ mkeys b).all (fun k =>
+                  Spec.streamOK (strm a k ++ strm b k) (mget r k)
+                    (fun x => (strm a k).contains x || (strm b k).contains x)))
+          "StreamSet.Union: keys / per-key membership law"
+      | none => some "StreamSet.Union: no result"
+    else none
+  | "ss.inter", a :: b :: _ => if ssInScope [a, b] then
+      match parseSS g with
+      | some r =>
+        req (keysOK (mkeys a ++ mkeys b) (mkeys r) (fun k => mhas a k && mhas b k)
+             && (mkeys r).all (fun k =>
+                  Spec.streamOK (strm a k ++ strm b k) (mget r k)
+                    (fun x => (strm a k).contains x && (strm b k).contains x)))
+          "StreamSet.Intersection: keys / per-key membership law"
+      | none => some "StreamSet.Intersection: no result"
+    else none
+  | "ss.minusstreams", a :: b :: _ => if ssInScope [a, b] then
+      match parseSS g with
+      | some r =>
+        req (keysOK (mkeys a ++ mkeys b) (mkeys r) (fun k => mhas a k)
+             && (mkeys a).all (fun k =>
+                  Spec.streamOK (strm a k ++ strm b k) (mget r k)
+                    (fun x => (strm a k).contains x && !(strm b k).contains x)))
+          "StreamSet.MinusStreams: keys / per-key membership law"
+      | none => some "StreamSet.MinusStreams: no result"
+    else none
+  | "ss.minus", a :: b :: _ => if ssInScope [a, b] then
+      match parseSS g with
+      | some r =>
+        req (keysOK (mkeys a ++ mkeys b) (mkeys r) (fun k => mhas a k && !mhas b k)
+             && (mkeys r).all (fun k =>
+                  Spec.streamOK (strm a k) (mget r k) (fun x => (strm a k).contains x)))
+          "StreamSet.Minus: by-key law"
+      | none => some "StreamSet.Minus: no result"
+    else none
+  | "ss.subset", a :: b :: _ => if ssInScope [a, b] then
+      match parseBool g with
+      | some r => req (Spec.subsetOK (mkeys a) (mkeys b) r) "StreamSet.IsSubsetByKey law"
+      | none => some "StreamSet.IsSubsetByKey: no result"
+    else none
+  | "ss.superset", a :: b :: _ => if ssInScope [a, b] then
+      match parseBool g with
+      | some r => req (Spec.subsetOK (mkeys b) (mkeys a) r) "StreamSet.IsSupersetByKey law"
+      | none => some "StreamSet.IsSupersetByKey: no result"
+    else none
+  | _, _ => none
+
+/-- split `g=<x> i=<y>` / `g=<x>` -/
+def parseObs (s : String) : Option (String × Option String) :=
+  match s.splitOn " " with
+  | [g] => if g.startsWith "g=" then some ((g.drop 2).toString, none) else none
+  | [g, i] => if g.startsWith "g=" && i.startsWith "i=" then some ((g.drop 2).toString, some (i.drop 2).toString) else none
+  | _ => none
+
+def specOp (c : Case) (op g : String) : Option String :=
+  match c.kind with
+  | "L" => match allSome (c.opds.map parseListOpd) with
+    | some o => specL o op g
+    | none => none
+  | "M" => match allSome (c.opds.map parseMapOpd) with
+    | some o => specM o op g
+    | none => none
+  | "S" => match allSome (c.opds.map parseSSOpd) with
+    | some o => specS o op g
+    | none => none
+  | _ => none
+
+/-- verdict for one op given what the real code printed for it -/
+def judgeOp (c : Case) (op obs : String) : Option String :=
+  match parseObs obs with
+  | none => if obs = "bad-op" then none else some s!"{op}: unreadable observation '{obs}'"
+  | some (g, tw) =>
+    let modelHasTwin := (runOp c op).2.isSome
+    match tw with
+    | some i =>
+      if g ≠ i then some s!"{op}: twin-mismatch generic={g} interface={i}"
+      else (specOp c op g).map (fun w => s!"{op}: {w} (got {g})")
+    | none =>
+      if modelHasTwin then some s!"{op}: twin result missing"
+      else (specOp c op g).map (fun w => s!"{op}: {w} (got {g})")
+
+def zipOps : List String → List String → List (String × String)
+  | o :: os, b :: bs => (o, b) :: zipOps os bs
+  | o :: os, [] => (o, "") :: zipOps os []
+  | [], _ => []
+
+/-- spec-level oracle: twin agreement for all operands, the set laws within the non-emptiness scope -/
+def judge (line impl : String) : String :=
+  let c := parseCase line
+  let obs := impl.splitOn " | "
+  if impl = "hang" || impl = "crash" || impl = "panic" then s!"violation the call did not return normally ({impl})" else
+  match (zipOps c.ops obs).filterMap (fun p => judgeOp c p.1 p.2) with
+  | [] => "allowed twins agree and the set laws hold on this case (the model differs outside the demanded scope or in an unordered/undemanded detail)"
+  | w :: _ => s!"violation {w}"
 
 end FpgoVerif.C05
